@@ -14,6 +14,7 @@ from vt import ir, irgen, irref, seams
 from vt.acc import Acc, MachineryError
 from vt.dut import Dut, GROUPS
 from vt.explore import linear_extensions, choice_dfs
+from pymtl3.dsl.errors import UpblkCyclicError
 
 PROPERTY = "C01"
 LEVEL = "model_checking"
@@ -253,15 +254,82 @@ def designs(tier):
   return list(irgen.all_designs())
 
 
+def check_stmt(name, tier, acc, only=None):
+  """Hand-written statement-family designs (vt/stmtfam.py): every pass group and every schedule SimpleSchedulePass can emit
+  (shuffle-seam DFS, capped) must produce the outputs of the design's reference function on both input sequences."""
+  from vt import stmtfam
+  from vt.dut import build_cls
+  cls, ref = stmtfam.DESIGNS[name], stmtfam.REF[name]
+  seqs = stmtfam.sequences()
+  base = dict(design=name, mode="stmt")
+
+  def drive(top, what, extra):
+    outs = sorted(top.get_all_object_filter(lambda x: x.is_signal() and x.is_top_level_signal() and x.get_host_component() is top and x.is_output_value_port()), key=repr)
+    getters = [(repr(p)[2:], p._dsl.Type.nbits, eval(f"lambda s: int(s.{repr(p)[2:]})")) for p in outs]
+    state = None
+    n = 0
+    for step, vec in enumerate(seqs[extra["seq"]]):
+      top.a @= vec["a"]; top.b @= vec["b"]; top.sel @= vec["sel"]; top.en @= vec["en"]; top.reset @= vec["reset"]
+      try:
+        top.sim_tick()
+      except Exception as ex:
+        acc.violation(f"stmt:{what}:tick-raised", dict(base, **extra), "no exception", repr(ex)[:200], name)
+        return n
+      state, want = ref(state, **vec)
+      n += 1
+      for nm, w, g in getters:
+        if g(top) != want[nm] & ((1 << w) - 1):
+          acc.violation(f"stmt:{what}:output-differs", dict(base, step=step, **extra), f"{nm} = {want[nm] & ((1 << w) - 1)}", g(top), f"{name} under {what} at step {step}")
+          return n
+    return n
+
+  nsteps = 0
+  for si in range(len(seqs)):
+    for group in ("dynamic", "heuristic", "mamba", "unroll"):
+      if only and only != (group, si): continue
+      try:
+        top = build_cls(cls, group)
+      except UpblkCyclicError:
+        if group in ("dynamic", "mamba"): raise
+        acc.add("stmt_cyclic_at_block_level", name)      # false loop between blocks (e.g. val/rdy through two children): acyclic-only passes refuse it (C11's subject)
+        continue
+      nsteps += drive(top, group, dict(group=group, seq=si))
+      acc.count("schedules_run")
+  orders = set()
+
+  def run(cr):
+    try:
+      top = build_cls(cls, "simple", shuffle=lambda n: cr.choose(n, 0))
+    except UpblkCyclicError:
+      acc.add("stmt_cyclic_at_block_level", name)
+      return 0
+    orders.add(tuple(b.__name__ for b in top._sched.update_schedule))
+    return drive(top, "simple-seam", dict(group="simple", seq=0, choices=[p[1] for p in cr.points]))
+
+  if not only or only[0] == "simple":
+    for choices, n in choice_dfs(run, bound=None, cap=(12 if tier == "quick" else 200)):
+      nsteps += n
+      acc.count("schedules_run")
+  acc.count("evaluations", nsteps)
+  acc.count("stmt_designs")
+  if len(orders) >= 2: acc.add("stmt_multi_schedule", name)
+  return nsteps
+
+
 def shards(tier):
+  from vt import stmtfam
   n = len(designs(tier))
   k = 48
-  return [(i, k) for i in range(min(k, n))]
+  names = sorted(stmtfam.DESIGNS)
+  return [(i, k) for i in range(min(k, n))] + [("stmt", names[i::8]) for i in range(8)]
 
 
 def run_shard(shard, tier, seed):
   i, k = shard
   acc = Acc()
+  if i == "stmt":
+    for name in k: check_stmt(name, tier, acc)
+    return acc
   ds = designs(tier)
   for j in range(i, len(ds), k):
     name, d = ds[j]
@@ -272,6 +340,10 @@ def run_shard(shard, tier, seed):
 
 
 def replay(case):
+  if case.get("mode") == "stmt":
+    acc = Acc()
+    check_stmt(case["design"], "quick", acc, only=(case["group"], case["seq"]))
+    return [(v["sig"], v["expected"], v["observed"], v["msg"]) for v in acc.violations][:3]
   d = ir.norm_comp(case["ir"])
   name = case["design"]
   hist = [dict(h) for h in case["hist"]]
@@ -317,7 +389,7 @@ def finish(acc, tier):
     designs=int(acc.n["designs"]), schedules_run=int(acc.n["schedules_run"]),
     linear_extensions=int(acc.n["linear_extensions"]), ext_cap=EXT_CAP[tier], ext_cap_hits=int(acc.n["ext_cap_hits"]),
     order_sensitive_designs=acc.size("order_sensitive"),
-    seam_designs=int(acc.n["seam_designs"]),
+    seam_designs=int(acc.n["seam_designs"]), stmt_family_designs=int(acc.n["stmt_designs"]), stmt_designs_with_several_schedules=acc.size("stmt_multi_schedule"),
     notes=acc.notes[:10],
     bounds=dict(seq_len=SEQ_LEN[tier], pass_groups=list(GROUPS)),
   )
